@@ -3,4 +3,4 @@ From CV Require Import C09.ParseModel.
 Extraction Language OCaml.
 Extraction "model.ml" to_lower check_braces strip_comments key_lookup fuel_of key_string_values
   scalar_value scalar_value_lenient extract_real extract_int extract_word bool_value
-  strip_values check_keywords parse_flat parse_config split_string first_token split_lines nparse nparse_config pseq mrun mempty lookup_seq.
+  strip_values check_keywords parse_flat parse_config split_string first_token split_lines nparse nparse_config pseq mrun mempty lookup_seq parse_index kv_seq.
